@@ -158,14 +158,52 @@ def c17_case(beh, sandbox, baseline_cache, lock):
         return {"files": sorted(want), "first_differing": first, "content": want.get(first, b"").decode("utf8", "replace")[:600]}, \
                {"files": sorted(got), "content": got.get(first, b"").decode("utf8", "replace")[:600]}, \
                "generated files differ from those of the canonical run (each input alone, from its parent directory, sorted listing, hash seed 0)"
+    # what a page shows besides its path-derived title and module name depends on the file's contents and the settings
+    # only - not on what the same process documented before it: compare with the file documented alone
+    for inp in inputs:
+        for rel in SOLO_FILES.get(inp["name"], []):
+            page = got.get(rel[:-len(".cmake")] + ".rst")
+            if page is None:
+                continue
+            key = ("solo", inp["name"], rel)
+            with lock:
+                ref = baseline_cache.get(key)
+            if ref is None:
+                bsb = tempfile.mkdtemp(prefix="solo_", dir=sandbox)
+                bloc = os.path.join(bsb, "locA")
+                materialise(bloc)
+                bs = os.path.join(bsb, "s.yaml")
+                settings_file(bs)
+                bhome = os.path.join(bsb, "home")
+                os.makedirs(os.path.join(bhome, ".config", "cminx"))
+                bout = os.path.join(bsb, "out")
+                rc, so, se = run_process(["-s", bs, "-o", bout, os.path.join(inp["name"], rel)], bloc, bhome, 0, "sorted", 1)
+                if rc != 0:
+                    raise lib.MachineryError("solo run failed: " + se[-300:])
+                ref = body_of(read_tree(bout)[os.path.basename(rel)[:-len(".cmake")] + ".rst"])
+                with lock:
+                    baseline_cache[key] = ref
+            if body_of(page) != ref:
+                return {rel: (ref or b"").decode("utf8", "replace")[:600]}, {rel: (body_of(page) or b"").decode("utf8", "replace")[:600]}, \
+                    "the content of a page differs from the page of the same file documented alone"
     return None
+
+
+SOLO_FILES = {"treeA": ["x.cmake", "sub/z2.cmake"], "treeB": ["m.cmake", "k/n.cmake"]}
+
+
+def body_of(page):
+    parts = page.split(b".. module::", 1)
+    return parts[1].split(b"\n", 1)[1] if len(parts) == 2 and b"\n" in parts[1] else None
 
 
 def replay_c17(run, behs, seed, limit):
     import threading
     rng = random.Random(seed)
     if len(behs) > limit:
-        behs = rng.sample(behs, limit)
+        # pairs of descriptor values (spelling x working directory, input list x prefix, ...) are all covered
+        behs = lib.covering_sample(behs, lambda b: dict(b["desc"], inputs="+".join(i["name"] for i in b["inputs"]),
+                                                        first=b["inputs"][0]["name"], n=len(b["inputs"])), limit, seed)
         run.exhaustive = False
     base = tempfile.mkdtemp(prefix="verif_c17_", dir="/dev/shm" if os.path.isdir("/dev/shm") else None)
     cache, lock = {}, threading.Lock()
@@ -239,6 +277,11 @@ def c19_case(case, sandbox):
     want_argv = [conc(x, out_cmake) for x in case["argv"][1:]]
     if logged != want_argv:
         return want_argv, logged, "argument vector passed to the executable differs from input, [-r iff directory], extra arguments verbatim, -o output"
+    if case["input"]["kind"] in ("syntaxerror", "brokentop", "missing") and (cm_rc == 0 or continued):
+        # CMinx cannot document these inputs (a file with a syntax error, a tree that contains one, a missing path):
+        # whatever status the executable reports, the configure step must not go on without the documentation
+        return {"cmake_fails": True}, {"cminx_status": status, "cmake_status": cm_rc, "script_continued": continued}, \
+            "CMinx could not document the input but the CMake call did not fail fatally"
     if (status != 0) != (cm_rc != 0) or (status != 0 and continued):
         return {"cminx_status": status, "cmake_fails": status != 0}, {"cmake_status": cm_rc, "script_continued": continued}, \
             "CMake does not fail fatally exactly when CMinx fails"
